@@ -178,13 +178,13 @@ Section Tpl.
       Rep s r -> P r -> (length r < fuel1)%nat -> (length r < fuel2)%nat ->
       tsim (t_struct_loop skipN fld fuel1 s) r (gfields fuel2 eR r).
     Proof.
-      induction fuel1 as [|f IH]; intros fuel2 s r HR HP Hf1 Hf2; [lia|].
-      destruct fuel2 as [|f2]; [lia|]. cbn [t_struct_loop gfields].
+      induction fuel1 as [|f IH]; intros fuel2 s r HR HP Hf1 Hf2; [slia|].
+      destruct fuel2 as [|f2]; [slia|]. cbn [t_struct_loop gfields].
       destruct r as [|ft r1].
-      { destruct (SN_fail s [] 1 HR ltac:(change (len (@nil N)) with 0; lia)) as [s' [c [E Hc]]].
+      { destruct (SN_fail s [] 1 HR ltac:(change (len (@nil N)) with 0; slia)) as [s' [c [E Hc]]].
         rewrite E. cbn. exists s', c. split; [reflexivity|exact Hc]. }
       pose proof (Rep_wf _ _ HR) as W. apply wf_cons in W as [Hft W1].
-      destruct (SN_ok s (ft :: r1) 1 HR ltac:(rewrite len_cons; lia)) as [s1 [E1 HR1]].
+      destruct (SN_ok s (ft :: r1) 1 HR ltac:(rewrite len_cons; slia)) as [s1 [E1 HR1]].
       rewrite E1. cbn [sbind]. change (take 1 (ft :: r1)) with [ft]. change (drop 1 (ft :: r1)) with r1 in HR1.
       unfold sret at 1. cbn [sbind index N.to_nat nth_error].
       destruct (is_ty_ok ft Hft) as (_&_&_&_&_&Hstop). rewrite Hstop.
@@ -198,12 +198,12 @@ Section Tpl.
       destruct (eR ft (drop 2 r1)) as [[n h]|er| |]; try contradiction; cbn [bind].
       - destruct HF as [s3 [E3 HR3]]. rewrite E3. cbn [sbind].
         assert (Hl : (length (drop n (drop 2 r1)) < length (ft :: r1))%nat).
-        { unfold drop. rewrite !skipn_length. cbn [length]. lia. }
-        specialize (IH f2 s3 (drop n (drop 2 r1)) HR3 (P_drop _ n (P_drop r1 2 HP1)) ltac:(lia) ltac:(lia)).
+        { unfold drop. rewrite !skipn_length. cbn [length]. slia. }
+        specialize (IH f2 s3 (drop n (drop 2 r1)) HR3 (P_drop _ n (P_drop r1 2 HP1)) ltac:(slia) ltac:(slia)).
         unfold tsim in *.
         destruct (gfields f2 eR (drop n (drop 2 r1))) as [[m hm]|er| |]; try contradiction; cbn [bind].
         + destruct IH as [s4 [E4 HR4]]. exists s4. split; [exact E4|].
-          rewrite !drop_plus in HR4. replace (3 + n + m) with (1 + (2 + (n + m))) by lia.
+          rewrite !drop_plus in HR4. replace (3 + n + m) with (1 + (2 + (n + m))) by slia.
           rewrite drop_cons_succ. exact HR4.
         + exact IH.
       - destruct HF as [s3 [c [E3 Hc]]]. rewrite E3. cbn [sbind]. exists s3, c. split; [reflexivity|exact Hc].
@@ -238,10 +238,10 @@ Section Tpl.
       destruct (SN_ok s r 4 HR H4) as [s1 [E1 HR1]]. rewrite E1. cbn [sbind].
       rewrite be_u32_take by exact H4. unfold sret at 1. cbn [sbind].
       set (u := unbe (take 4 r)).
-      destruct (Z.ltb_spec (Z.of_N u) 0); [lia|].
-      assert (Ld : len (drop 4 r) < two31) by (rewrite len_drop; lia).
+      destruct (Z.ltb_spec (Z.of_N u) 0); [exfalso; slia|].
+      assert (Ld : len (drop 4 r) < two31) by (rewrite len_drop; slia).
       destruct (N.leb_spec two31 u) as [Hneg|Hpos].
-      { destruct (SN_fail s1 (drop 4 r) u HR1 ltac:(lia)) as [s' [c [E Hc]]]. rewrite E. cbn.
+      { destruct (SN_fail s1 (drop 4 r) u HR1 ltac:(slia)) as [s' [c [E Hc]]]. rewrite E. cbn.
         exists s', c. split; [reflexivity|exact Hc]. }
       rewrite hasn_le. destruct (N.leb_spec u (len (drop 4 r))) as [Hu|Hu].
       + destruct (SN_ok s1 (drop 4 r) u HR1 Hu) as [s2 [E2 HR2]]. rewrite E2. cbn.
@@ -249,19 +249,19 @@ Section Tpl.
       + destruct (SN_fail s1 (drop 4 r) u HR1 Hu) as [s' [c [E Hc]]]. rewrite E. cbn.
         exists s', c. split; [reflexivity|exact Hc].
     - (* struct *)
-      apply tsim_top. apply t_struct_loop_sim; try assumption; [|lia].
+      apply tsim_top. apply t_struct_loop_sim; try assumption; [|slia].
       intros ft s0 r0 Hft HR0 HP0. change (rp_es inl_none (rp inl_none d) ft r0) with (rp inl_none d ft r0).
       apply IH; assumption.
     - (* map *)
       assert (Hfail : len r < 6 -> forall y, tsim (sbind (skipN s 6) y) r (Err E_TRUNC)).
       { intros H6 y. destruct (SN_fail s r 6 HR H6) as [s' [c [E Hc]]]. rewrite E. cbn.
         exists s', c. split; [reflexivity|exact Hc]. }
-      destruct r as [|kt [|vt r2]]; try (apply Hfail; rewrite ?len_cons; change (len (@nil N)) with 0; lia).
+      destruct r as [|kt [|vt r2]]; try (apply Hfail; rewrite ?len_cons; change (len (@nil N)) with 0; slia).
       rewrite hasn_le. destruct (N.leb_spec 4 (len r2)) as [H4|H4].
-      2:{ apply Hfail. rewrite !len_cons. lia. }
+      2:{ apply Hfail. rewrite !len_cons. slia. }
       clear Hfail.
       pose proof (Rep_wf _ _ HR) as W. apply wf_cons in W as [Hkt W]. apply wf_cons in W as [Hvt W2].
-      destruct (SN_ok s (kt :: vt :: r2) 6 HR ltac:(rewrite !len_cons; lia)) as [s1 [E1 HR1]].
+      destruct (SN_ok s (kt :: vt :: r2) 6 HR ltac:(rewrite !len_cons; slia)) as [s1 [E1 HR1]].
       rewrite E1. cbn [sbind]. rewrite (hdr_map kt vt r2 H4). unfold sret at 1. cbn [sbind]. cbv zeta.
       change (drop 6 (kt :: vt :: r2)) with (drop 4 r2) in HR1.
       assert (HP1 : P (drop 4 r2)) by (apply (P_drop (kt :: vt :: r2) 6 HP)).
@@ -282,7 +282,7 @@ Section Tpl.
         rewrite (gelems_ext _ _ (fixedp (kw + vw))).
         2:{ intros r. rewrite <- gpair_fixed. apply gpair_ext; apply member_fixed_ext'; assumption. }
         pose proof (kind_fixed_pos _ _ Kk) as Hkw. pose proof (kind_fixed_pos _ _ Kv) as Hvw.
-        rewrite gelems_fixed; [|clear - Hkw Hvw; lia|apply ldrop2].
+        rewrite gelems_fixed; [|clear - Hkw Hvw; slia|apply ldrop2].
         rewrite <- N2Z.inj_add, <- N2Z.inj_mul, N2Z.id.
         apply skip_exact. exact HR1.
       + rewrite N2Z.id.
@@ -296,12 +296,12 @@ Section Tpl.
       assert (Hfail : len r < 5 -> forall y, tsim (sbind (skipN s 5) y) r (Err E_TRUNC)).
       { intros H5 y. destruct (SN_fail s r 5 HR H5) as [s' [c [E Hc]]]. rewrite E. cbn.
         exists s', c. split; [reflexivity|exact Hc]. }
-      destruct r as [|et r1]; try (apply Hfail; change (len (@nil N)) with 0; lia).
+      destruct r as [|et r1]; try (apply Hfail; change (len (@nil N)) with 0; slia).
       rewrite hasn_le. destruct (N.leb_spec 4 (len r1)) as [H4|H4].
-      2:{ apply Hfail. rewrite !len_cons. lia. }
+      2:{ apply Hfail. rewrite !len_cons. slia. }
       clear Hfail.
       pose proof (Rep_wf _ _ HR) as W. apply wf_cons in W as [Het W1].
-      destruct (SN_ok s (et :: r1) 5 HR ltac:(rewrite !len_cons; lia)) as [s1 [E1 HR1]].
+      destruct (SN_ok s (et :: r1) 5 HR ltac:(rewrite !len_cons; slia)) as [s1 [E1 HR1]].
       rewrite E1. cbn [sbind]. rewrite (hdr_list et r1 H4). unfold sret at 1. cbn [sbind]. cbv zeta.
       change (drop 5 (et :: r1)) with (drop 4 r1) in HR1.
       assert (HP1 : P (drop 4 r1)) by (apply (P_drop (et :: r1) 5 HP)).
